@@ -1377,8 +1377,10 @@ def bin_term(op, a, b):
         if k == 0:
             return base
         return ('bin', 'Add', base, ('lit', k))
-    if op in ('Eq', 'Ne') and a == b and a[0] in ('ctor', 'lit', 'const'):
+    if op in ('Eq', 'Ne') and a == b and a[0] in ('ctor', 'lit', 'const', 'discr'):
         return TRUE if op == 'Eq' else FALSE
+    if op in ('Eq', 'Ne') and a[0] == 'discr' and b[0] == 'discr':
+        return ('lit', (a[1] == b[1]) == (op == 'Eq'))
     if op in ('Eq', 'Ne') and a[0] == 'ctor' and b[0] == 'ctor' and not a[2] and not b[2]:
         return ('lit', (a[1] == b[1]) == (op == 'Eq'))
     if op == 'Ne':
@@ -1520,6 +1522,16 @@ def builtin_summary(I, cal, args, node, st):
     name = cal.rsplit('::', 1)[-1]
     is_opt = cal.startswith('core::option::Option::<T>::')
     is_res = cal.startswith('core::result::Result::<T, E>::')
+    if cal == 'core::mem::discriminant' and len(args) == 1:
+        # mem::discriminant(&x): the variant of x and nothing else; of a constructor term it is that constructor's name, of a value
+        # whose variant the path condition has fixed it is that variant
+        v = args[0]
+        if v[0] == 'ctor':
+            return [Out('val', ('discr', v[1]), st)]
+        for a, t in st.pc:
+            if t and a[0] == 'is' and a[1] == v:
+                return [Out('val', ('discr', a[2]), st)]
+        return [Out('val', ('call', cal, tuple(args), None), st)]
     if hirq.is_transparent(cal) and args:
         if name == 'clone' and node.get('k') == 'MethodCall' and hirq.strip_refs(node['recv'].get('ty', '')).startswith('ldap3::') \
                 and hirq.strip_refs(node['recv'].get('ty', '')).split('<')[0] in ('ldap3::ldap::Ldap',):
